@@ -162,6 +162,23 @@ void SPxScaler<R>::setup(SPxLPBase<R>& lp)
 
 
 template <class R>
+void SPxScaler<R>::rebind(const SPxLPBase<R>& oldLP, const SPxScaler<R>& oldScaler,
+                          SPxLPBase<R>& newLP)
+{
+   // the copied pointers address the scaling factors stored in the LP of the source
+   if(m_activeColscaleExp == &oldLP.LPColSetBase<R>::scaleExp)
+      m_activeColscaleExp = &newLP.LPColSetBase<R>::scaleExp;
+
+   if(m_activeRowscaleExp == &oldLP.LPRowSetBase<R>::scaleExp)
+      m_activeRowscaleExp = &newLP.LPRowSetBase<R>::scaleExp;
+
+   // the copied LP points to the scaler of the source
+   if(newLP.lp_scaler == &oldScaler)
+      newLP.lp_scaler = this;
+}
+
+
+template <class R>
 int SPxScaler<R>::computeScaleExp(const SVectorBase<R>& vec,
                                   const DataArray<int>& oldScaleExp) const
 {
